@@ -282,5 +282,11 @@ func oneLine(s string) string {
 	return s
 }
 
+// IsTimeoutPanic reports whether err is a recovered panic caused by a match timeout (the adapter
+// in compat/ panics with the match error; a timeout is a permitted error, hence a discard).
+func IsTimeoutPanic(err error) bool {
+	return err != nil && strings.Contains(err.Error(), "panic: match timeout")
+}
+
 // Q quotes runes for messages.
 func Q(r []rune) string { return strconv.QuoteToASCII(string(r)) }
